@@ -363,6 +363,20 @@ where
     result
 }
 
+/// Do the two wrapped renderings of a line (syntax and diff styles) break it at the same places?
+/// They are made independently from two different divisions of the same text into sections; if
+/// a section boundary of one of them falls inside a grapheme cluster (a letter and its
+/// combining mark), the two can come out differently.
+fn same_rows<S1, S2>(a: &[LineSections<'_, S1>], b: &[LineSections<'_, S2>]) -> bool {
+    a.len() == b.len()
+        && a.iter().zip(b).all(|(row_a, row_b)| {
+            row_a
+                .iter()
+                .flat_map(|(_, s)| s.bytes())
+                .eq(row_b.iter().flat_map(|(_, s)| s.bytes()))
+        })
+}
+
 fn wrap_if_too_long<'a, S>(
     config: &'a Config,
     wrapped: &mut Vec<LineSections<'a, S>>,
@@ -445,12 +459,17 @@ pub fn wrap_minusplus_block<'c: 'a, 'a>(
             .next()
             .unwrap_or_else(|| panic!("bad wrap info {}", errhint));
 
+        let syntax_line = syntax_iter
+            .next()
+            .unwrap_or_else(|| panic!("bad syntax alignment {}", errhint));
+        let diff_line = diff_iter
+            .next()
+            .unwrap_or_else(|| panic!("bad diff alignment {}", errhint));
+
         let (start, extended_to) = wrap_if_too_long(
             config,
             wrapped_syntax,
-            syntax_iter
-                .next()
-                .unwrap_or_else(|| panic!("bad syntax alignment {}", errhint)),
+            syntax_line.clone(),
             must_wrap,
             line_width,
             &config.null_syntect_style,
@@ -470,27 +489,27 @@ pub fn wrap_minusplus_block<'c: 'a, 'a>(
             None
         };
 
-        let (start2, extended_to2) = wrap_if_too_long(
+        let (start2, _) = wrap_if_too_long(
             config,
             wrapped_diff,
-            diff_iter
-                .next()
-                .unwrap_or_else(|| panic!("bad diff alignment {}", errhint)),
+            diff_line.clone(),
             must_wrap,
             line_width,
             fill_style,
             &inline_hint_style,
         );
 
-        // The underlying text is the same for the style and diff, so
-        // the length of the wrapping should be identical:
-        assert_eq!(
-            (start, extended_to),
-            (start2, extended_to2),
-            "syntax and diff wrapping differs {errhint}",
-        );
+        // The underlying text is the same for the style and diff, so the wrapping should be
+        // identical. Where it is not (see `same_rows`) the line is left unwrapped: it is then
+        // truncated like a line that exceeds the maximum number of wrapped lines.
+        if must_wrap && !same_rows(&wrapped_syntax[start..], &wrapped_diff[start2..]) {
+            wrapped_syntax.truncate(start);
+            wrapped_diff.truncate(start2);
+            wrapped_syntax.push(syntax_line);
+            wrapped_diff.push(diff_line);
+        }
 
-        (start, extended_to)
+        (start, wrapped_syntax.len())
     }
 
     // This macro avoids having the same code block 4x in the alignment processing
@@ -626,6 +645,7 @@ pub fn wrap_zero_block<'c: 'a, 'a>(
     let should_wrap = line_is_too_long(line, line_width);
 
     if should_wrap {
+        let unwrapped = (syntax_style_sections.clone(), diff_style_sections.clone());
         let syntax_style = wrap_line(
             config,
             syntax_style_sections.into_iter().flatten(),
@@ -657,6 +677,11 @@ pub fn wrap_zero_block<'c: 'a, 'a>(
             },
             &inline_hint_style,
         );
+
+        if !same_rows(&syntax_style, &diff_style) {
+            // (see `same_rows`) leave the line unwrapped
+            return (states, unwrapped.0, unwrapped.1);
+        }
 
         states.resize_with(syntax_style.len(), || State::HunkZeroWrapped);
 
